@@ -27,6 +27,9 @@
  */
 #include "stdoutoutput.h"
 
+#ifndef _POSIX_C_SOURCE
+#define _POSIX_C_SOURCE 200809L // for flockfile()
+#endif
 #include <stdio.h>
 
 
@@ -46,7 +49,15 @@
  */
 int snoopy_output_stdoutoutput (char const * const logMessage, __attribute__((unused)) char const * const arg)
 {
-    int charCount = fprintf(stdout, "%s\n", logMessage);
+    int charCount;
+
+    /*
+     * Keep the stream locked for the whole record (and its flush): when the host
+     * program has made stdout unbuffered, fprintf() hands a long record over in
+     * pieces and locks the stream for each piece only.
+     */
+    flockfile(stdout);
+    charCount = fprintf(stdout, "%s\n", logMessage);
 
     /*
      * Hand the record over to the OS right away: stdout is fully buffered when it
@@ -54,6 +65,7 @@ int snoopy_output_stdoutoutput (char const * const logMessage, __attribute__((un
      * sitting in the stdio buffer of the replaced process image.
      */
     fflush(stdout);
+    funlockfile(stdout);
 
     return charCount;
 }
